@@ -165,6 +165,97 @@ def _det_policy(net, box):
     return DeterministicTanhPolicy(net, box)
 
 
+# --- multi-task networks (task embedding + backbone)
+# Row norms of the task embedding relative to max_task_embedding_norm: below,
+# exactly at (a signed unit vector times the max norm: its float32 norm is
+# exact), just above and well above the maximum.  Training (an optimizer step on
+# the embedding) and hard target copies produce rows above the maximum; only
+# select_task is documented to renormalise.
+_MT_NORMS = [0.5, 1.0, 1.0005, 3.0]
+_MT_MAX_NORMS = [1.0, 1.0, 0.5, 2.0]  # per shape configuration (static attribute of the modules)
+
+
+def _set_task_embedding(module, seed, mults):
+    """Overwrite the task-embedding parameter: row i gets a direction drawn from
+    the seed and the norm mults[i] * max_task_embedding_norm."""
+    emb = module._task_embedding.embedding
+    n, e = np.shape(emb.value)
+    if len(mults) != n:
+        raise HarnessError(f"{len(mults)} row norms for {n} tasks")
+    max_norm = float(module.max_task_embedding_norm)
+    rows = np.zeros((n, e), dtype=np.float64)
+    for i, m in enumerate(mults):
+        if m == 1.0:
+            rows[i, _seed(seed, i) % e] = max_norm * (1.0 if _seed(seed, i, 1) % 2 else -1.0)
+        else:
+            d = gen.rng_array(_seed(seed, i, 2), (e,), 1.0).astype(np.float64) + 1e-3
+            rows[i] = d / np.linalg.norm(d) * m * max_norm
+    emb.value = L.jnp.asarray(rows.astype(np.float32))
+    return module
+
+
+def _mt_rows_above(module):
+    """Number of task-embedding rows whose float32 norm exceeds the maximum."""
+    v = np.asarray(module._task_embedding.embedding.value, dtype=np.float32)
+    return int(np.sum(np.sqrt(np.sum(v * v, axis=1, dtype=np.float32)) > np.float32(module.max_task_embedding_norm)))
+
+
+def _mt_q(case, seed, norms, task):
+    from rl_blox.blox.embedding.task_embedding import MTMLPQNetwork
+
+    q = MTMLPQNetwork(n_tasks=case["n_tasks"], task_embedding_dim=case["ted"], n_features=case["od"],
+                      n_outputs=case["na"], hidden_nodes=list(case["hid"]), activation=case["act"],
+                      rngs=L.nnx.Rngs(seed % 1000), max_task_embedding_norm=case["max_norm"])
+    _set_task_embedding(_redraw(q, seed, case["pscale"]), _seed(seed, 5), norms)
+    q.task_id = int(task)  # the attribute TaskSelectionMixin.select_task sets (no renormalisation)
+    return q
+
+
+def _mt_encoder(case, seed, norms, task):
+    from rl_blox.blox.embedding.task_embedding import ModelBasedMTEncoder
+
+    e = ModelBasedMTEncoder(n_tasks=case["n_tasks"], task_embedding_dim=case["ted"], n_state_features=case["od"],
+                            n_action_features=case["ad"], n_bins=case["n_bins"], zs_dim=case["zs"],
+                            za_dim=case["za"], zsa_dim=case["zsa"], hidden_nodes=list(case["hid"]),
+                            activation="elu", rngs=L.nnx.Rngs(seed % 1000),
+                            max_task_embedding_norm=case["max_norm"])
+    _set_task_embedding(_redraw(e, seed, case["pscale"]), _seed(seed, 5), norms)
+    e.task_id = int(task)
+    return e
+
+
+def _mt_fields(draw, c):
+    """Multi-task part of a case: number of tasks, embedding size, selected
+    tasks of online / target network (shape-like: tied to the configuration in
+    the quick tier) and the row norms of both embeddings (free)."""
+    c["mt"] = 1
+    c["n_tasks"] = 3 if _quick() else draw(st.sampled_from([2, 3, 4]))
+    c["ted"] = _tied(draw, c, [2, 2, 3, 2], st.sampled_from([1, 2, 3]))
+    c["task"] = _tied(draw, c, [0, 1, 2, 1], st.integers(0, c["n_tasks"] - 1))
+    # train_smt / train_active_mt select tasks on the online modules only: the target may sit on another task
+    c["task_t"] = _tied(draw, c, [0, 1, 0, 2], st.integers(0, c["n_tasks"] - 1))
+    c["max_norm"] = _tied(draw, c, _MT_MAX_NORMS, st.sampled_from([0.5, 1.0, 2.0]))
+    rows = st.lists(st.sampled_from(_MT_NORMS + [3.0]), min_size=c["n_tasks"], max_size=c["n_tasks"])
+    c["norms"] = draw(rows)
+    c["norms_t"] = draw(rows)
+    # constructed, not filtered: which of the two networks certainly has a row above the maximum
+    which = draw(st.sampled_from(["online", "target", "both", "both", "free"]))
+    for key, wanted in (("norms", ("online", "both")), ("norms_t", ("target", "both"))):
+        if which in wanted and max(c[key]) <= 1.0:
+            c[key][draw(st.integers(0, c["n_tasks"] - 1))] = draw(st.sampled_from([1.0005, 3.0]))
+    return c
+
+
+def _mt_labels(case, mods):
+    above = {n: _mt_rows_above(m) for n, m in mods.items()}
+    labs = [f"rows-above:{n}={'0' if a == 0 else '1+'}" for n, a in above.items()]
+    sel = [case["norms"][case["task"]], case["norms_t"][case["task_t"]]]
+    labs.append("selected-row-above" if max(sel) > 1.0 else "selected-row-within")
+    if 1.0 in case["norms"] + case["norms_t"]:
+        labs.append("row-exactly-at-max")
+    return labs, sum(above.values())
+
+
 _TX = {}
 
 
@@ -341,14 +432,42 @@ class Scene:
                   lambda: f"{name}: gradient max-abs {gmax:.3g}, {kind} lr={lr}, but no parameter changed")
         return gmax, demanded
 
+    def sgd_step(self, name, before, after, grads, lr):
+        """Plain SGD (optax.sgd without momentum) is stateless: every parameter leaf
+        must move by -lr * gradient of the documented objective.  The reference
+        gradient is evaluated by a separately compiled float32 program, hence the
+        tolerance: 1e-3 of the leaf's largest step plus a few ulps of the parameter
+        (a blocked or partially blocked gradient path is wrong by O(step))."""
+        b, a = before[name], after[name]
+        n = 0
+        for path, g in grads.items():
+            g = np.asarray(g, dtype=np.float64)
+            if g.size == 0 or not np.all(np.isfinite(g)):
+                continue
+            dt, shp, raw = b[path]
+            p0 = np.frombuffer(raw, dtype=dt).reshape(shp).astype(np.float64)
+            p1 = np.frombuffer(a[path][2], dtype=a[path][0]).reshape(a[path][1]).astype(np.float64)
+            want = -lr * g
+            tol = (1e-3 * float(np.max(np.abs(want))) + 1e-7 * lr
+                   + 4.0 * np.spacing(np.maximum(np.abs(p0), np.abs(p0 + want)).astype(np.float32)).astype(np.float64))
+            err = np.abs((p1 - p0) - want)
+            n += 1
+            check(bool(np.all(err <= tol)), f"{self.sub}.sgd_step_differs.{name}",
+                  lambda path=path, err=err, want=want, p1=p1, p0=p0: (
+                      f"{name}{path}: sgd lr={lr}: parameter moved by {(p1 - p0).ravel()[:4]}, -lr * documented "
+                      f"gradient is {want.ravel()[:4]} (max abs error {err.max():.3g})"))
+        return n
 
-def _outcome(sc, case, gmaxes, labels, n_trained):
+
+def _outcome(sc, case, gmaxes, labels, n_trained, extra=True):
+    """extra: additional non-triviality condition of the sub-check (multi-task:
+    some task-embedding row above the maximum norm)."""
     gmax = min(gmaxes) if gmaxes else 0.0
     n_other = sc.n_components() - n_trained
     labs = list(labels) + [f"opt={case.get('opt', '-')}", "warm" if case.get("warm") else "cold",
                            "grad>0" if gmax > 0 else "grad=0",
                            f"bystanders={'2+' if n_other >= 2 else n_other}"]
-    return Outcome(labels=labs, nontrivial=bool(gmax > 0 and n_other >= 2))
+    return Outcome(labels=labs, nontrivial=bool(gmax > 0 and n_other >= 2 and extra))
 
 
 def _eval_grad(key, make_fn, argnums, *args):
@@ -492,20 +611,28 @@ def _tsl_run(name):
 
         jax = L.jax
         loss, step = _tsl_jit(name)
-        sc = Scene(sub)
+        mt = bool(case.get("mt"))
+        sc = Scene(sub + "_mt" if mt else sub)
         B, od, ad = case["B"], case["od"], case["ad"]
         ps = case["pseed"]
-        if name in _DISCRETE:
+        mt_labels, n_above = [], 1
+        if name in _DISCRETE and mt:
+            # multi-task Q networks (examples/smt_discrete_example.py): online network and its target
+            q = _mt_q(case, _seed(ps, 1), case["norms"], case["task"])
+            q_target = _mt_q(case, _seed(ps, 2), case["norms_t"], case["task_t"])
+            mt_labels, n_above = _mt_labels(case, {"q": q, "q_target": q_target} if name != "dqn_loss" else {"q": q})
+        elif name in _DISCRETE:
             q = _mlp(od, case["na"], case["hid"], case["act"], _seed(ps, 1), case["pscale"])
             q_target = _mlp(od, case["na"], case["hid"], case["act"], _seed(ps, 2), case["pscale"])
-            r = np.random.default_rng(_seed(case["dseed"], 5))
-            action = _i(r.integers(0, case["na"], B))
-            box = None
         else:
             q = _make_q_cont(case, _seed(ps, 1))
             q_target = _make_q_cont(case, _seed(ps, 2))
             box = _box(case)
             action = _actions_in_box(case, 5, B, box)
+        if name in _DISCRETE:
+            r = np.random.default_rng(_seed(case["dseed"], 5))
+            action = _i(r.integers(0, case["na"], B))
+            box = None
         batch = Batch(_obs(case, 1, (B, od)), action, _f(gen.rng_array(_seed(case["dseed"], 2), (B,), case["rscale"])),
                       _obs(case, 3, (B, od)), _i(case["term"]))
         sc.mod("q", q)
@@ -548,8 +675,24 @@ def _tsl_run(name):
         sc.verify(s1, s2, {"q"}, {"optimizer"})
         gmax, dem = sc.must_change("q", s1, s2, g, case["opt"], case["lr"], not case["warm"])
         return _outcome(sc, case, [gmax], [case["mode"], "demanded" if dem else "not-demanded",
-                                           "term-mixed" if 0 < sum(case["term"]) < B else "term-uniform"], 2)
+                                           "term-mixed" if 0 < sum(case["term"]) < B else "term-uniform"]
+                        + ([name] + mt_labels if mt else []), 2, extra=n_above > 0)
     return run
+
+
+@st.composite
+def tsl_mt_cases(draw):
+    """train_step_with_loss on multi-task Q networks (MTMLPQNetwork online and
+    target, as in examples/smt_discrete_example.py) with the DQN-family losses."""
+    name = draw(st.sampled_from(["ddqn_loss", "nature_dqn_loss", "ddqn_loss", "nature_dqn_loss", "ddqn_per_loss",
+                                 "dqn_loss"]))
+    c = draw(_tsl_cases(name)())
+    c["loss"] = name
+    return _mt_fields(draw, c)
+
+
+def run_tsl_mt(case):
+    return _tsl_run(case["loss"])(case)
 
 
 # ----------------------------------------------------------------------------
@@ -979,27 +1122,68 @@ def mrq_cases(draw):
     c = draw(_base(two_opts=True))
     c["H"] = _tied(draw, c, [1, 3, 3, 1], st.sampled_from([1, 2, 3]))
     c["gamma"] = _tied(draw, c, [0.99, 0.0, 0.99, 0.99], st.sampled_from([0.0, 0.99]))
-    c["aw"] = _tied(draw, c, [1e-5, 0.1, 1e-5, 1e-5], st.sampled_from([1e-5, 0.1]))
+    # activation_weight 0.0: no regulariser, so that with a policy optimizer without weight decay (sgd, adam)
+    # only the deterministic-policy-gradient term can move the policy
+    c["aw"] = _tied(draw, c, [0.0, 0.1, 1e-5, 0.0], st.sampled_from([0.0, 1e-5, 0.1]))
     c["term"] = draw(_term(c["B"] * c["H"]))
     c["scales"] = draw(st.sampled_from([[1.0, 0.0], [1.0, 1.0], [0.37, 2.5]]))
     return c
 
 
+@st.composite
+def mrq_mt_cases(draw):
+    """update_critic_and_policy with multi-task encoders (ModelBasedMTEncoder
+    online and target, networks as built by create_mt_mrq_state)."""
+    return _mt_fields(draw, draw(mrq_cases()))
+
+
+@st.composite
+def encoder_mt_cases(draw):
+    """update_model_based_encoder with multi-task encoders."""
+    c = draw(encoder_cases())
+    c["normalize"] = 1  # ModelBasedMTEncoder.zs takes observation + task embedding: only normalised targets exist
+    return _mt_fields(draw, c)
+
+
+def _mrq_policy_objective(aw):
+    """Documented MR.Q policy objective, written from the formula (not via
+    mrq_policy_loss): -mean_i Q(zsa(zs_i, pi(zs_i))) + activation_weight *
+    mean(pre-activation^2), zs = encoder.encode_zs(observation) held fixed."""
+    def f(p, q_, e, obs):
+        jax, jnp = L.jax, L.jnp
+        zs = jax.lax.stop_gradient(e.encode_zs(obs))
+        value = q_(e.encode_zsa(zs, p(zs)))
+        objective = -jnp.sum(value) / value.size
+        if aw != 0.0:
+            pre = p.policy_net(zs)
+            objective = objective + aw * jnp.sum(pre * pre) / pre.size
+        return objective
+    return f
+
+
 def run_mrq(case):
     from rl_blox.algorithm import mrq
 
-    sc = Scene("update_critic_and_policy")
+    mt = bool(case.get("mt"))
+    sc = Scene("update_critic_and_policy" + ("_mt" if mt else ""))
     B, od, ad, ps, H = case["B"], case["od"], case["ad"], case["pseed"], case["H"]
     box = _box(case)
+    ted = case["ted"] if mt else 0  # the multi-task encoder appends the task embedding to zs and zsa
 
     def mkq(s):
-        return _lnmlp(case["zsa"], 1, case["hid"], "elu", s, case["pscale"])
+        return _lnmlp(case["zsa"] + ted, 1, case["hid"], "elu", s, case["pscale"])
     q = sc.mod("q", _double_q(mkq, _seed(ps, 1)))
     q_t = sc.mod("q_target", _double_q(mkq, _seed(ps, 2)))
-    policy = sc.mod("policy", _det_policy(_lnmlp(case["zs"], ad, case["hid"], case["act"], _seed(ps, 3),
+    policy = sc.mod("policy", _det_policy(_lnmlp(case["zs"] + ted, ad, case["hid"], case["act"], _seed(ps, 3),
                                                  case["pscale"]), box))
-    enc = sc.mod("encoder", _encoder(case, _seed(ps, 4)))
-    enc_t = sc.mod("encoder_target", _encoder(case, _seed(ps, 5)))
+    mt_labels, n_above = [], 1
+    if mt:
+        enc = sc.mod("encoder", _mt_encoder(case, _seed(ps, 4), case["norms"], case["task"]))
+        enc_t = sc.mod("encoder_target", _mt_encoder(case, _seed(ps, 5), case["norms_t"], case["task_t"]))
+        mt_labels, n_above = _mt_labels(case, {"encoder": enc, "encoder_target": enc_t})
+    else:
+        enc = sc.mod("encoder", _encoder(case, _seed(ps, 4)))
+        enc_t = sc.mod("encoder_target", _encoder(case, _seed(ps, 5)))
     q_opt = sc.opt("q_optimizer", _opt_for(q, case, _seed(ps, 6)))
     p_opt = sc.opt("policy_optimizer", _opt_for(policy, case, _seed(ps, 7), "2"))
     term = np.asarray(case["term"], dtype=np.int32).reshape(B, H)
@@ -1032,10 +1216,22 @@ def run_mrq(case):
     sc.verify(s1, s2, {"q", "policy"}, {"q_optimizer", "policy_optimizer"})
     cold = not case["warm"]
     gm_q, d1 = sc.must_change("q", s1, s2, g_q, case["opt"], case["lr"], cold)
-    # the policy step uses the already updated critic
-    g_p = _eval_grad(("mrq_p", aw), make_p, 0, policy0, L.nnx.clone(q), L.nnx.clone(enc), batch.observation)
+    # the policy step uses the already updated critic; its documented gradient comes from an objective
+    # written here from the formula, not from mrq_policy_loss
+    g_p = _eval_grad(("mrq_p_doc", aw), lambda: _mrq_policy_objective(aw), 0, policy0, L.nnx.clone(q),
+                     L.nnx.clone(enc), batch.observation)
     gm_p, d2 = sc.must_change("policy", s1, s2, g_p, case["opt2"], case["lr2"], cold)
-    return _outcome(sc, case, [gm_q, gm_p], [f"H={H}", "demanded" if d1 and d2 else "not-demanded"], 4)
+    # plain gradient descent has no state: the step is -lr * gradient of the documented objective
+    n_dir = 0
+    if case["opt"] == "sgd":
+        n_dir += sc.sgd_step("q", s1, s2, g_q, case["lr"])
+    if case["opt2"] == "sgd":
+        n_dir += sc.sgd_step("policy", s1, s2, g_p, case["lr2"])
+    return _outcome(sc, case, [gm_q, gm_p],
+                    [f"H={H}", "demanded" if d1 and d2 else "not-demanded", f"aw={aw:g}", f"opt2={case['opt2']}",
+                     "policy-moves-by-dpg-term-only" if aw == 0.0 and case["opt2"] != "adamw" else
+                     "policy-moves-also-by-regulariser/decay", "sgd-step-compared" if n_dir else "no-sgd-step"]
+                    + mt_labels, 4, extra=n_above > 0)
 
 
 @st.composite
@@ -1053,13 +1249,20 @@ def run_encoder(case):
     from rl_blox.blox.embedding.model_based_encoder import model_based_encoder_loss, update_model_based_encoder
     from rl_blox.blox.preprocessing import make_two_hot_bins
 
-    sc = Scene("update_model_based_encoder")
+    mt = bool(case.get("mt"))
+    sc = Scene("update_model_based_encoder" + ("_mt" if mt else ""))
     od, ad, ps = case["od"], case["ad"], case["pseed"]
     H, T, B = case["H"], case["target_delay"], case["B"]
     N = T * B
     box = _box(case)
-    enc = sc.mod("encoder", _encoder(case, _seed(ps, 1)))
-    enc_t = sc.mod("encoder_target", _encoder(case, _seed(ps, 2)))
+    mt_labels, n_above = [], 1
+    if mt:
+        enc = sc.mod("encoder", _mt_encoder(case, _seed(ps, 1), case["norms"], case["task"]))
+        enc_t = sc.mod("encoder_target", _mt_encoder(case, _seed(ps, 2), case["norms_t"], case["task_t"]))
+        mt_labels, n_above = _mt_labels(case, {"encoder": enc, "encoder_target": enc_t})
+    else:
+        enc = sc.mod("encoder", _encoder(case, _seed(ps, 1)))
+        enc_t = sc.mod("encoder_target", _encoder(case, _seed(ps, 2)))
     opt = sc.opt("encoder_optimizer", _opt_for(enc, case, ps))
     bins = sc.arr("the_bins", make_two_hot_bins(n_bin_edges=case["n_bins"]))
     term = np.asarray(case["term"], dtype=np.int32).reshape(N, H)
@@ -1081,7 +1284,8 @@ def run_encoder(case):
     s2 = sc.snap()
     sc.verify(s1, s2, {"encoder"}, {"encoder_optimizer"})
     gmax, dem = sc.must_change("encoder", s1, s2, g, case["opt"], case["lr"], not case["warm"] and T == 1)
-    return _outcome(sc, case, [gmax], [f"H={H}", f"T={T}", "demanded" if dem else "not-demanded"], 2)
+    return _outcome(sc, case, [gmax], [f"H={H}", f"T={T}", "demanded" if dem else "not-demanded"]
+                    + mt_labels, 2, extra=n_above > 0)
 
 
 # ----------------------------------------------------------------------------
@@ -1416,7 +1620,8 @@ def run_ensemble(case):
 # pure evaluations: __call__, sample, log_probability, entropy, action samplers
 
 _PURE_KINDS = ["det_policy", "gauss_tanh", "gauss", "softmax", "q_nets", "sale", "mrq_encoder", "ensemble",
-               "samplers", "gradient_fns"]
+               "samplers", "gradient_fns", "mt_q", "mt_encoder"]
+_MT_KINDS = ("mt_q", "mt_encoder")
 
 
 @st.composite
@@ -1425,6 +1630,8 @@ def pure_cases(draw):
     c["kinds"] = sorted(draw(st.lists(st.sampled_from(_PURE_KINDS), min_size=5, max_size=len(_PURE_KINDS),
                                       unique=True)))
     c["single"] = draw(st.integers(0, 1))
+    _mt_fields(draw, c)
+    c["task2"] = draw(st.integers(0, c["n_tasks"] - 1))  # task chosen by the final select_task
     return c
 
 
@@ -1434,7 +1641,45 @@ def run_pure(case):
         finite, n = _pure_kind(case, kind)
         labels += [kind] + ([] if finite else [f"nonfinite:{kind}"])
         ok = ok and finite and n >= 2
+    if any(k in _MT_KINDS for k in case["kinds"]):
+        above = sum(m > 1.0 for m in case["norms"] + case["norms_t"])
+        labels += ["mt:rows-above=" + ("0" if above == 0 else "1+"),
+                   "mt:selected-row-" + ("above" if case["norms"][case["task"]] > 1.0 else "within")]
     return Outcome(labels=labels + [f"kinds={len(case['kinds'])}"], nontrivial=bool(ok))
+
+
+def _check_select_task(sc, kind, mods, task2):
+    """select_task is documented to select the task and to renormalise the task
+    embedding to the maximum norm: it is not a pure evaluation, but it must not
+    change anything except the task embedding of the module it is called on,
+    must leave rows within the maximum norm untouched, and pure evaluations
+    after it are pure again (callers pass eager calls)."""
+    for name, (m, calls) in mods.items():
+        s0 = sc.snap()
+        emb0 = np.asarray(m._task_embedding.embedding.value, dtype=np.float32)
+        m.select_task(task2)
+        s1 = sc.snap()
+        check(m.task_id == task2, f"pure_eval.select_task_not_selected.{kind}", f"task_id={m.task_id} after "
+                                                                                 f"select_task({task2})")
+        for n in s0:
+            d = diff_states(s0[n], s1[n])
+            if n == name:
+                d = [p for p in d if "_task_embedding" not in p]
+            check(not d, f"pure_eval.select_task_changed_other.{kind}.{n}",
+                  lambda d=d, n=n: f"{name}.select_task({task2}) changed {n}: {d[:4]}")
+        emb1 = np.asarray(m._task_embedding.embedding.value, dtype=np.float32)
+        mx = np.float32(m.max_task_embedding_norm)
+        n0 = np.sqrt(np.sum(emb0.astype(np.float64) ** 2, axis=1))
+        n1 = np.sqrt(np.sum(emb1.astype(np.float64) ** 2, axis=1))
+        within = n0 <= float(mx) * (1 - 1e-6)
+        check(bool(np.all(emb0[within] == emb1[within])), f"pure_eval.select_task_changed_row_within_max.{kind}",
+              lambda: f"norms before {n0}, after {n1}, max {mx}")
+        check(bool(np.all(n1 <= float(mx) * (1 + 1e-5))), f"pure_eval.select_task_row_above_max.{kind}",
+              lambda: f"norms before {n0}, after {n1}, max {mx}")
+        for k, c in enumerate(calls):
+            c()
+            s2 = sc.snap()
+            sc.expect_unchanged(s1, s2, f"changed_by_call_after_select_task{k}.{kind}")
 
 
 def _pure_kind(case, kind):
@@ -1503,6 +1748,34 @@ def _pure_kind(case, kind):
         act = sc.arr("action", _actions_in_box(case, 2, B, box))
         calls = [lambda: enc.encode_zs(obs), lambda: enc.encode_zsa(enc.encode_zs(obs), act),
                  lambda: enc.model_head(enc.encode_zs(obs), act), lambda: pwe(obs)]
+    elif kind == "mt_q":
+        # multi-task Q network and its target (examples/smt_discrete_example.py): forward pass, greedy action
+        qm = sc.mod("q", _mt_q(case, _seed(ps, 1), case["norms"], case["task"]))
+        qm_t = sc.mod("q_target", _mt_q(case, _seed(ps, 2), case["norms_t"], case["task_t"]))
+        sc.opt("optimizer", _optimizer(qm, "adam", 1e-2, 1, ps))
+        calls = [lambda: qm(obs), lambda: qm(obs[0]), lambda: qm_t(obs), lambda: qm.task_embedding(obs),
+                 lambda: greedy_policy(qm, obs[0]), lambda: greedy_policy(qm, np.asarray(obs[0])),
+                 lambda: greedy_policy(qm_t, obs[0])]
+        select = {"q": (qm, [lambda: qm(obs), lambda: qm_t(obs)]), "q_target": (qm_t, [lambda: qm_t(obs[0])])}
+    elif kind == "mt_encoder":
+        # multi-task MR.Q networks (create_mt_mrq_state): encoder, policy on zs, double Q on zsa
+        ted = case["ted"]
+        enc = sc.mod("encoder", _mt_encoder(case, _seed(ps, 1), case["norms"], case["task"]))
+        enc_t = sc.mod("encoder_target", _mt_encoder(case, _seed(ps, 2), case["norms_t"], case["task_t"]))
+        pnet = sc.mod("policy", _det_policy(_lnmlp(case["zs"] + ted, ad, case["hid"], case["act"], _seed(ps, 3),
+                                                   case["pscale"]), box))
+        qz = sc.mod("q", _double_q(lambda s_: _lnmlp(case["zsa"] + ted, 1, case["hid"], "elu", s_, case["pscale"]),
+                                   _seed(ps, 4)))
+        sc.opt("encoder_optimizer", _optimizer(enc, "adamw", 1e-2, 1, ps))
+        pwe = DeterministicPolicyWithEncoder(enc, pnet)
+        pwe_t = DeterministicPolicyWithEncoder(enc_t, pnet)
+        act = sc.arr("action", _actions_in_box(case, 2, B, box))
+        calls = [lambda: enc.encode_zs(obs), lambda: enc.encode_zsa(enc.encode_zs(obs), act),
+                 lambda: enc.model_head(enc.encode_zs(obs), act), lambda: pwe(obs), lambda: pwe(obs[0]),
+                 lambda: pwe_t(obs), lambda: qz(enc_t.encode_zsa(enc_t.encode_zs(obs), act)),
+                 lambda: enc.task_embedding(act)]
+        select = {"encoder": (enc, [lambda: pwe(obs), lambda: enc_t.encode_zs(obs)]),
+                  "encoder_target": (enc_t, [lambda: pwe_t(obs[0])])}
     elif kind == "ensemble":
         from rl_blox.blox import probabilistic_ensemble as pe
 
@@ -1544,6 +1817,8 @@ def _pure_kind(case, kind):
         rec(c())
         s1 = sc.snap()
         sc.expect_unchanged(s0, s1, f"changed_by_call{k}.{kind}")
+    if kind in _MT_KINDS:
+        _check_select_task(sc, kind, select, case["task2"])
     finite = all(np.all(np.isfinite(o)) for o in outs) and len(outs) > 0
     return finite, sc.n_components()
 
@@ -1795,6 +2070,7 @@ _TSL_NAMES = ["dqn_loss", "nature_dqn_loss", "ddqn_loss", "ddqn_per_loss", "ddpg
               "sac_loss"]
 
 _NT = "gradient of the trained component non-zero and >= 2 non-trained components snapshotted"
+_NT_MT = _NT + " and >= 1 task-embedding row of a multi-task network in the call above the maximum norm"
 
 
 def _simplify(case):
@@ -1813,6 +2089,12 @@ def _simplify(case):
         c = dict(case)
         c["term"] = [0] * len(case["term"])
         yield c
+    for key in ("norms", "norms_t"):
+        for i, m in enumerate(case.get(key, [])):
+            if m != 0.5:
+                c = dict(case)
+                c[key] = [0.5 if j == i else x for j, x in enumerate(case[key])]
+                yield c
     if len(case.get("kinds", [])) > 1:
         for k in case["kinds"]:
             c = dict(case)
@@ -1820,9 +2102,9 @@ def _simplify(case):
             yield c
 
 
-def _sc(name, strat, run, quick=40, thorough=300, cost=1.0):
+def _sc(name, strat, run, quick=40, thorough=300, cost=1.0, rule=None):
     return SubCheck(name, strat, run, quick=quick, thorough=thorough, shards=1, shards_thorough=4, cost=cost,
-                    shrink=False, suppress_too_slow=True, simplify=_simplify, rule=_NT)
+                    shrink=False, suppress_too_slow=True, simplify=_simplify, rule=rule or _NT)
 
 
 SUBCHECKS = (
@@ -1837,6 +2119,9 @@ SUBCHECKS = (
         _sc("td7_train_step", td7_step_cases, run_td7_step, cost=3.0),
         _sc("update_critic_and_policy", mrq_cases, run_mrq, quick=30, cost=3.0),
         _sc("update_model_based_encoder", encoder_cases, run_encoder, quick=30, cost=3.0),
+        _sc("tsl_multitask", tsl_mt_cases, run_tsl_mt, quick=30, cost=1.5, rule=_NT_MT),
+        _sc("update_critic_and_policy_mt", mrq_mt_cases, run_mrq, quick=24, cost=3.0, rule=_NT_MT),
+        _sc("update_model_based_encoder_mt", encoder_mt_cases, run_encoder, quick=20, cost=2.5, rule=_NT_MT),
         _sc("update_ppo", ppo_cases, run_ppo, quick=30, cost=2.0),
         _sc("train_policy_a2c", a2c_cases, run_a2c_policy),
         _sc("train_value_function", value_cases, run_value_function),
